@@ -29,4 +29,12 @@ theorem conn_sections :
     Facts.readLoopShape = ["open", "loop", "close", "reclaim"] ∧
     Facts.dispatchDefersRecovery = true ∧ Facts.closeOpcodeTakesClosePath = true := by decide
 
+/-- C09 (handshake clause): `UpgradeFromConn`, `NewClient` and `NewClientFromConn` run the inner
+handshake procedure and, when it reports an error, close the transport before returning that error.
+Which transport operation failed does not matter to this wrapper, so the clause "for every position
+k of every transport operation of the handshake" reduces to "the inner procedure reports the
+failure", which the `faults hs-*` cases observe for every k (a failed operation followed by a
+successful return is reported as `fault-swallowed`). -/
+theorem handshake_entry_closes_on_error : Facts.handshakeEntryClosesOnError = true := by decide
+
 end SourceShape
